@@ -58,9 +58,9 @@ def expected(st):
     return (node(s), p[1], eo)
 
 
-def read_impl(text, source_file=None):
+def read_impl(text, source_file=None, **kw):
     from shexer.io.graph.yielder.nt_triples_yielder import NtTriplesYielder
-    y = NtTriplesYielder(raw_graph=text) if source_file is None else NtTriplesYielder(source_file=source_file)
+    y = NtTriplesYielder(raw_graph=text, **kw) if source_file is None else NtTriplesYielder(source_file=source_file, **kw)
     old = signal.signal(signal.SIGALRM, _alarm)
     signal.alarm(30)
     try:
@@ -181,6 +181,26 @@ def run(ctx):
         try:
             with os.fdopen(fd, "w", encoding="utf-8", newline="") as fh:
                 fh.write(doc)
+            # ... and as a gz file, as the member of a zip archive, and from the string with numeric inference switched on (every
+            # literal of these documents is quoted, so the option must change nothing)
+            import gzip, zipfile
+            with gzip.open(path + ".gz", "wt", encoding="utf-8", newline="") as fh:
+                fh.write(doc)
+            with zipfile.ZipFile(path + ".zip", "w") as z:
+                z.writestr("d.nt", doc)
+            zf = zipfile.ZipFile(path + ".zip")
+            others = [("gz file", read_impl(None, source_file=path + ".gz", compression_mode="gz")),
+                      ("zip member", read_impl(None, source_file="d.nt", compression_mode="zip", zip_base_archive=zf)),
+                      ("string, allow_untyped_numbers", read_impl(doc, allow_untyped_numbers=True))]
+            zf.close()
+            os.remove(path + ".gz"); os.remove(path + ".zip")
+            for cname, rr in others:
+                if (rr[0] != 'ok' or rr[1] != exp or rr[2] != 0) and not F.match(kf, {"kind": "nt_doc", "doc": doc}) and not any(v.get("channel") == cname for v in viol):
+                    first = next((k for k, (a, b) in enumerate(zip(rr[1], exp)) if a != b), min(len(rr[1]), len(exp)))
+                    viol.append({"what": "document of %d statements read as %s: %s" % (len(chunk), cname, rr[0] if rr[0] != 'ok' else
+                                         "%d triples for %d statements, %d error lines; first difference at statement %d" % (len(rr[1]), len(exp), rr[2], first)),
+                                 "channel": cname, "doc": doc[:2000], "line": lines[j + first] if j + first < len(lines) else None,
+                                 "got": rr[1][first:first + 1], "expected": [list(x) for x in exp[first:first + 1]]})
             rf = read_impl(None, source_file=path)
             stats["file_documents"] = stats.get("file_documents", 0) + 1
             if (rf[0] != 'ok' or rf[1] != exp or rf[2] != 0) and not F.match(kf, {"kind": "nt_doc", "doc": doc}) and not any(v.get("channel") == "file" for v in viol):
